@@ -226,9 +226,10 @@ TAGS = {
     "red bold": ("K_boldred", ["red bold", "bold red"], _sp({"bold": True}, color="red")),
     "not bold": ("K_notbold", ["not bold"], _sp({"bold": False})),
     "#00ff00": ("K_hex", ["#00ff00"], _sp(color="#00ff00")),
-    "link=https://a.example/x": ("K_link", ["link"], _sp(link="https://a.example/x")),
-    "link=https://b.example": ("K_link", ["link"], _sp(link="https://b.example")),
-    "link=https://c.example/s?q=1&p=2#top": ("K_link", ["link"], _sp(link="https://c.example/s?q=1&p=2#top")),
+    # a closing tag may repeat a parameter (XML habit): it closes by name, whatever the parameter says
+    "link=https://a.example/x": ("K_link", ["link", "link=https://a.example/x", "link=zzz"], _sp(link="https://a.example/x")),
+    "link=https://b.example": ("K_link", ["link", "link=https://a.example/x", "link=https://b.example"], _sp(link="https://b.example")),
+    "link=https://c.example/s?q=1&p=2#top": ("K_link", ["link", "link=other"], _sp(link="https://c.example/s?q=1&p=2#top")),
     "foo": ("K_foo", ["foo"], None),
     "underline blue": ("K_ublue", ["underline blue", "blue underline", "u blue"], _sp({"underline": True}, color="blue")),
 }
